@@ -74,17 +74,26 @@ class Elem:
         return "e=" + "/".join(str(int(x)) if isinstance(x, bool) else str(x) for x in fields)
 
 
-def features(starttls=False, mechs=(), zlib=False, bind=False, session=None, sm=False, extra_mech_names=(), tls_required=False):
+def features(starttls=False, mechs=(), zlib=False, bind=False, session=None, sm=False, extra_mech_names=(), tls_required=False,
+             empty_mech_at=None, methods=None):
     inner, cns = "", []
     if starttls:
         # (<required/> is only in the bytes: the library, and therefore the model, does not look at it)
         inner += ("<starttls xmlns='%s'><required/></starttls>" % NSURI["tls"]) if tls_required else ("<starttls xmlns='%s'/>" % NSURI["tls"])
         cns.append("tls")
     if mechs or extra_mech_names:
-        inner += "<mechanisms xmlns='%s'>%s</mechanisms>" % (NSURI["sasl"], "".join("<mechanism>%s</mechanism>" % m for m in list(mechs) + list(extra_mech_names)))
+        ml = ["<mechanism>%s</mechanism>" % m for m in list(mechs) + list(extra_mech_names)]
+        if empty_mech_at is not None:
+            # (an empty <mechanism/> is only in the bytes: the library skips it, the model never sees it)
+            ml.insert(min(empty_mech_at, len(ml)), "<mechanism/>" if empty_mech_at % 2 == 0 else "<mechanism></mechanism>")
+        inner += "<mechanisms xmlns='%s'>%s</mechanisms>" % (NSURI["sasl"], "".join(ml))
         cns.append("sasl")
-    if zlib:
-        inner += "<compression xmlns='http://jabber.org/features/compress'><method>zlib</method></compression>"
+    if zlib or methods:
+        # (methods other than zlib are only in the bytes: the model's `zlib` flag says whether zlib is among them)
+        ms = list(methods) if methods is not None else ["zlib"]
+        if zlib and "zlib" not in ms:
+            ms.append("zlib")
+        inner += "<compression xmlns='http://jabber.org/features/compress'>%s</compression>" % "".join("<method>%s</method>" % m for m in ms)
         cns.append("other")
     if bind:
         inner += "<bind xmlns='%s'/>" % NSURI["bind"]
@@ -206,7 +215,7 @@ class Scenario:
             elif k == "pass":
                 out.append("P%d" % o[1])
             elif k == "cert":
-                out.append("K%d" % o[1])
+                out.append("K%d" % (1 if o[1] else 0))
             elif k == "user":
                 out.append("U%d:%d:%s" % (o[1], now, "-" if o[2] is None else o[2]))
             elif k == "env":
@@ -228,7 +237,7 @@ class Scenario:
                     out.append("R:%d:i:%s" % (now, ",".join(item_tok(i) for i in rd[1])))
             elif k == "disc":
                 out.append("D:%d" % now)
-            elif k == "send":
+            elif k in ("send", "sendst"):
                 out.append("S")
             elif k == "sendraw":
                 out.append("Sr")
@@ -258,7 +267,7 @@ class Scenario:
                     cmds.append("pass " + H("secret"))
             elif k == "cert":
                 if o[1]:
-                    cmds.append("cert")
+                    cmds.append("cert p12" if o[1] == 2 else "cert")
                     cmds.append("xaddr " + H("user@example.com"))
             elif k == "user":
                 if o[1]:
@@ -300,6 +309,10 @@ class Scenario:
                 cmds.append("send " + H("<message id='u'/>"))
             elif k == "sendraw":
                 cmds.append("sendraw " + H("<message id='w'/>"))
+            elif k == "sendst":
+                cmds.append("sendst " + H("<message id='u'/>"))
+            elif k == "starttls":
+                cmds.append("starttls")
             elif k == "is":
                 cmds.append("is")
             elif k == "openstream":
@@ -454,7 +467,7 @@ def classify(kind, xml):
     if name == "stream:error":
         return "serr"
     if name == "message":
-        if "id='u'" in head:
+        if "id='u'" in head or 'id="u"' in head:
             return "user"
         if "id='w'" in head:
             return "userraw"
@@ -646,7 +659,8 @@ def server_script(rng, cfg, comp=False, raw=False):
     if rng.random() < .4 and "PLAIN" not in mechs:
         mechs.append("PLAIN")
     steps.append(["h1"])
-    steps.append([features(offer_tls, mechs, tls_required=offer_tls and rng.random() < .3)])
+    steps.append([features(offer_tls, mechs, tls_required=offer_tls and rng.random() < .3,
+                           empty_mech_at=rng.randrange(4) if (mechs and rng.random() < .25) else None)])
     if offer_tls and cfg["tlsnew"]:
         steps.append([simple("tls", "proceed")])
         steps.append(["h1"])
@@ -676,7 +690,7 @@ def server_script(rng, cfg, comp=False, raw=False):
         steps.append([simple("sasl", "success")])
         steps.append(["h1"])
         if cfg["flags"] & 64 and rng.random() < .7:
-            steps.append([features(zlib=True, bind=True)])
+            steps.append([features(zlib=True, bind=True, methods=rng.choice([None, None, ["lzw", "zlib"], ["zlib", "bzip2"]]))])
             steps.append([simple("compress", "compressed")])
             steps.append(["h1"])
         sess = rng.choice([None, None, "req", "opt"])
@@ -767,7 +781,7 @@ def gen_scenario(rng, profile="mixed"):
                     ops.append(("clock", rng.choice(DEADLINE_DELTAS)))
                     ops.append(("run", None))
             elif st_ == "userop":
-                ops.append(rng.choice([("disc",), ("send",), ("sendraw",), ("is",), ("flags", rng.choice(FLAG_SETS)), ("connect", kind, ["accept"]), ("send",)]))
+                ops.append(rng.choice([("disc",), ("send",), ("sendraw",), ("is",), ("flags", rng.choice(FLAG_SETS)), ("connect", kind, ["accept"]), ("send",), ("sendst",)]))
                 ops.append(("run", None))
             else:
                 ops.append(("run", ("items", st_)))
@@ -940,6 +954,8 @@ class Observer:
         # raw connections: reading starts in the iteration after the one that reported RAW_CONNECT
         if "E:raw_connect" in seg:
             att["reading"] = True
+        if any(t.startswith("TLS:start") for t in seg) and (att["flags"] & 1):
+            self.viol["C02"].append("TLS disabled by the user but a TLS handshake was started")
         if "TLS:start=ok" in seg:
             att["tls_up"] = True
         # 4. notifications
@@ -1146,7 +1162,7 @@ PROCEED = simple("tls", "proceed")
 def base_ops(flags=0, node=1, res=1, pw=1, cert=0, user=(1, 1000), tlsnew=1, cb=0, verdicts=()):
     ops = [("flags", flags), ("jid", node, res), ("pass", pw)]
     if cert:
-        ops.append(("cert", 1))
+        ops.append(("cert", cert))
     ops.append(("user", user[0], user[1]))
     ops.append(("env", tlsnew, cb, list(verdicts)))
     return ops
@@ -1299,7 +1315,7 @@ def stage_shape_scenarios(rng, thorough=False):
                 ops = base_ops(flags=fl, user=(1, 1000)) + list(setup) + [("connect", kind, ["accept"]), ("run", None)] + runs(*steps[:k])
                 ops += [("run", ("items", [shape])), ("run", None), ("is",)]
                 ops += runs(*steps[k + 1:k + 3])
-                ops += [("send",), ("run", None), ("is",), ("run", "close"), ("run", None), ("is",)]
+                ops += [("send",), ("sendst",), ("run", None), ("is",), ("run", "close"), ("run", None), ("is",)]
                 # the object must be reusable
                 ops += [("connect", kind, ["accept"]), ("run", None)] + runs(["h1"]) + [("is",), ("run", "close"), ("run", None), ("release",)]
                 out.append(Scenario(ops, "shape:%s:%d:%s" % (name, k, shape if isinstance(shape, str) else getattr(shape, "kind", None) or shape.tok())))
@@ -1329,7 +1345,8 @@ def _session(tls, mech, post, tail=True):
 
 
 POSTS = [dict(bind=True), dict(bind=True, session="req"), dict(bind=True, session="opt"), dict(bind=True, sm=True),
-         dict(bind=True, session="req", sm=True), dict(bind=True, zlib=True), dict(sm=True), dict()]
+         dict(bind=True, session="req", sm=True), dict(bind=True, zlib=True), dict(sm=True), dict(),
+         dict(bind=True, methods=["lzw"]), dict(bind=True, methods=["lzw", "bzip2"])]
 
 
 def reconnect_scenarios(rng, thorough=False):
@@ -1343,7 +1360,7 @@ def reconnect_scenarios(rng, thorough=False):
             if i == j:
                 continue
             for fl in (0, 64, 32):
-                if fl == 64 and not (a.get("zlib") or b.get("zlib")):
+                if fl == 64 and not (a.get("zlib") or b.get("zlib") or a.get("methods") or b.get("methods")):
                     continue
                 if fl == 32 and not (a.get("sm") or b.get("sm")):
                     continue
@@ -1388,9 +1405,27 @@ def userid_scenarios(rng, thorough=False):
     for name, fl, kind, setup, steps in stage_sessions():
         for k in range(len(steps) + 1):
             ops = base_ops(flags=fl, user=(1, 1)) + list(setup) + [("connect", kind, ["accept"]), ("run", None)] + runs(*steps[:k])
-            ops += [("run", ("items", [probe])), ("run", None), ("clock", 5), ("run", None)] + runs(*steps[k:]) + [("run", ("items", [probe])), ("run", None)]
+            ops += [("run", ("items", [probe])), ("sendst",), ("send",), ("run", None), ("clock", 5), ("run", None)] + runs(*steps[k:]) + [("run", ("items", [probe])), ("run", None)]
             ops += [("is",), ("run", "close"), ("run", None), ("release",)]
             S.append(Scenario(ops, "userid:%s:%d" % (name, k)))
+    return S
+
+
+def rawtls_scenarios(rng, thorough=False):
+    """C02, implementation only (the model has no op for xmpp_conn_tls_start on a raw connection): the user asks for TLS
+    on a raw connection at several moments, under every TLS flag word; with DISABLE_TLS no handshake may start."""
+    S = []
+    for fl in (1, 1 + 16, 1 + 32, 0, 2, 8):
+        for when in (0, 1, 2):
+            ops = base_ops(flags=fl) + [("connect", "raw", ["accept"]), ("run", None)]
+            if when >= 1:
+                ops += [("openstream",), ("run", None)] + runs(["h1"])
+            if when >= 2:
+                ops += runs([features(True, ["PLAIN"], tls_required=True)], [PROCEED])
+            ops += [("starttls",), ("run", None), ("run", None), ("is",), ("run", "close"), ("run", None), ("release",)]
+            sc = Scenario(ops, "rawtls:%d:%d" % (fl, when))
+            sc.impl_only = True
+            S.append(sc)
     return S
 
 
@@ -1472,6 +1507,28 @@ def deadline_scenarios(rng, thorough=False):
             sc.expect = (2000, "same", ("E:disconnect",), mark)
             S.append(sc)
     # a healthy connection is never given up: every wait of the negotiation was disarmed by the answer it waited for
+    for delta in ((14999, 1, 1, 1), (16000, 16000, 60000)):
+        ops = base_ops(flags=4, user=(1, 1000000)) + [("connect", "client", ["accept"]), ("run", None)] + runs(*happy_client(tls=False, sm=True)) + [("is",)]
+        mark = len(ops)
+        for dt in delta:
+            ops += [("clock", dt), ("run", None), ("is",)]
+        ops += [("release",)]
+        sc = Scenario(ops, "deadline:healthy-legacy-ssl:%s" % "+".join(map(str, delta)))
+        sc.expect = (10 ** 12, "same", ("E:disconnect", "W:close", "T:close"), mark)
+        S.append(sc)
+    # the user gives up while the TCP connect is still pending: the attempt ends 2 s later
+    # (timed waits only run on an established TCP connection: the endpoint accepts, the request is made before the first
+    #  loop iteration notices it)
+    for eps in (["accept"], ["refuse", "accept"]):
+        for delta in ((1999, 1, 1), (2000, 1), (2001, 1), (1000, 999, 1, 1)):
+            ops = base_ops() + [("connect", "client", eps), ("disc",)]
+            mark = len(ops)
+            for dt in delta:
+                ops += [("clock", dt), ("run", None), ("is",)]
+            ops += [("release",)]
+            sc = Scenario(ops, "deadline:close-while-connecting:%s:%s" % ("".join(e[0] for e in eps), "+".join(map(str, delta))))
+            sc.expect = (2000, "same", ("E:disconnect",), mark)
+            S.append(sc)
     for name, st_ in (("plain", happy_client(tls=False, sm=False)), ("session", happy_client(tls=False, session="req", sm=False)),
                       ("session-sm", happy_client(tls=False, session="req", sm=True)), ("tls-sm", happy_client(tls=True, sm=True)),
                       ("zlib", happy_client(tls=False, sm=True, zlib=True))):
@@ -1593,7 +1650,8 @@ def policy_scenarios(rng, thorough=False):
                 for answer in ("proceed", "tlsfail", "none", "verdictfail", "tlsnewfail"):
                     if not offer_tls and answer not in ("none",):
                         continue
-                    chunks = [["h1"], [features(offer_tls, mechs, tls_required=offer_tls and (len(S) % 3 == 1))]]
+                    chunks = [["h1"], [features(offer_tls, mechs, tls_required=offer_tls and (len(S) % 3 == 1),
+                                                empty_mech_at=(len(S) % 4 if (mechs and len(S) % 2 == 0) else None))]]
                     verdicts, tlsnew = [], 1
                     if answer == "proceed":
                         post = rng.choice([["PLAIN"], mechs, mechs, ["SCRAM-SHA-256", "DIGEST-MD5"], ["PLAIN", "SCRAM-SHA-1"]])
@@ -1613,6 +1671,8 @@ def policy_scenarios(rng, thorough=False):
                         else:
                             tail = [[simple("sasl", "failure")], [simple("sasl", "failure")], [simple("sasl", "failure")], [SUCCESS], ["h1"], [features(bind=True)]]
                         cert = int("EXTERNAL" in mechs and (chain == "refuse" or rng.random() < .5))
+                        if cert and len(S) % 2 == 1:
+                            cert = 2            # PKCS#12: only the certificate argument is set
                         ops = base_ops(flags=fl, cert=cert, tlsnew=tlsnew, verdicts=verdicts) + \
                             [("connect", "client", ["accept"]), ("run", None)] + runs(*(chunks + tail)) + [("clock", 15000), ("run", None), ("run", None), ("is",), ("release",)]
                         S.append(Scenario(ops, "policy:%d:%d:%s:%s:%s" % (fl, offer_tls, "+".join(mechs), answer, chain)))
